@@ -807,7 +807,11 @@ def rule_build_guards(F, ev_unused, R, config, rule="R-BUILD-GUARDS"):
                     X = d[1][1]
                 else:
                     t = atom_call(d, "::contains", False)
-                    if t is not None and len(t[3]) == 2 and t[3][1] == it and "str::" not in t[1]:
+                    # only the standard library's element membership test: a method of the same name brought in by a local
+                    # trait (which method resolution prefers at the auto-ref step) is a different function
+                    std_contains = t is not None and t[1].startswith(("core::slice", "std::vec::Vec", "alloc::vec::Vec", "std::slice", "alloc::slice")) \
+                        and not any(strip_generics(x.j.get("path", "")) == t[1] for x in F.bodies.values())
+                    if std_contains and len(t[3]) == 2 and t[3][1] == it and "str::" not in t[1]:
                         X = t[3][0]
                 if X is None or not (X[0] == "field" and X[1] == P1(rb0)):
                     return False
